@@ -163,6 +163,10 @@ def make_plan(rng, name, n, max_size=200, gates=GATES):
         size = rng.choice([0, 1, 5, 40, rng.randint(0, max_size)])
         body = ("%s:%d:" % (name, i)).encode() + rng.randbytes(size)
         plan.append((body, rng.choice(gates)))
+    return _finish_plan(rng, name, n, plan)
+
+
+def _finish_plan(rng, name, n, plan):
     if n >= 2 and rng.random() < 0.3:
         # one genuinely empty message (legal, and falsy): still identifiable because there is only one
         i = rng.randrange(n)
@@ -235,6 +239,17 @@ def build_case(spec, max_msgs=12, max_size=2000, adversary=True):
     else:
         cfg["plan_a"] = make_plan(rng, "A", rng.randint(spec.get("min_msgs", 0), max_msgs), max_size=max_size)
         cfg["plan_b"] = make_plan(rng, "B", rng.randint(spec.get("min_msgs", 0), max_msgs), max_size=max_size)
+    if spec.get("huge"):
+        # one very large message (the documentation speaks of ~20 kB, the API sets no limit)
+        who = "plan_" + rng.choice("ab")
+        pl = list(cfg[who])
+        i = rng.randrange(len(pl)) if pl else 0
+        body = b"HUGE:%d:" % i + rng.randbytes(spec["huge"])
+        if pl:
+            pl[i] = (body, pl[i][1])
+        else:
+            pl = [(body, "any")]
+        cfg[who] = pl
     drv = TwoParty(world, cfg)
     if kind == "perm":
         world.adversary = HoldPermute(world, lambda: drv.b.w._boss._side, len(spec["perm"]), spec["perm"])
